@@ -21,7 +21,7 @@ INFO = dict(
               'a request issued at least one maximum retry interval after the endpoint became reachable is served by it; no connect attempt '
               'happens after the client was closed.',
   bounds={'quick': 'one endpoint, back-off constants = builder defaults (5 s, x^1.2, max 60 s), unreachable for up to 40 s starting in [0, 20] s, 2 probe requests; client closed at a symbolic instant while down, also while a (slow) connect attempt is in flight; a server that hangs (established connections silent, new ones refused for a symbolic while) with a call timing out into the silence',
-          'thorough': 'as quick with outages of up to 100 s, plus two endpoints in one aperture with two 25 s outages whose (symbolic) starts may overlap, under steady traffic'},
+          'thorough': 'as quick with outages of up to 100 s (a two-endpoint scenario with overlapping outages under steady traffic was built - two_endpoints() - but does not finish within 30 min on 16 cores and is not registered)'},
   outside=['symbolic back-off parameters (exponentiation is out of reach of SMT; the defaults are concrete)', 'several endpoints failing independently',
            'flapping (more than one unreachable interval)'],
   stubs=['as C01; connect outcome is a function of the virtual time of the attempt'],
@@ -39,8 +39,6 @@ def jobs(tier):
     js.append(dict(name='%s-close-during-connect' % k, stack=k, sc='closeconn', cost=500, shards=4, shard_depth=2))
   for k in ('T', 'M'):
     js.append(dict(name='%s-hang' % k, stack=k, sc='hang', cost=1000, shards=8, shard_depth=4))
-  if tier != 'quick':
-    js.append(dict(name='M-two-endpoints-overlapping-outages', stack='M', sc='two', cost=50000, shards=64, shard_depth=6, max_seconds=5400))
   return js
 
 
@@ -57,13 +55,14 @@ def two_endpoints(job):
     eps = {}
     win = {}
     for name, port in (('a', 1), ('b', 2)):
-      u0 = fresh_real('outage_%s_starts' % name, 1, 20); dur = 25      # both outages last 25 s; their starts (hence overlap and order) are symbolic
+      # both outages last 25 s; a's starts at 8 s, b's at a symbolic instant (hence overlap and order are symbolic)
+      u0 = 8 if name == 'a' else fresh_real('outage_%s_starts' % name, 1, 20); dur = 25
       win[name] = (u0, u0 + dur)
       def conn(kk, t, name=name):
         rel = t - t_base
         return 'refuse' if bool(sand(rel >= win[name][0], rel < win[name][1])) else 'ok'
       eps[name] = e.net.endpoint(name, port, peer=lambda s: netm.MuxPeer(s, script), connect=conn, connect_delay=0)
-    hdecide(win['a'][0] < win['b'][0])
+    hdecide(win['b'][0] < 8)
     b = ThriftMux.NewBuilder(stacks.Hello.Iface).SetUri('tcp://a:1,b:2').SetTimeout(5)
     c = b.ReplaceRole(SinkRole.LoadBalancer, ApertureBalancerSink.Builder(min_size=2)).Build()
     for name in ('a', 'b'):
